@@ -114,6 +114,10 @@ def run(repo: Repo, rep: Report, tier: str) -> None:
     _r07_8(repo, rep)
     from ..core import helper_contracts as _hc5
     _hc5.report(repo, rep, "R09.7", _hc5.small_helper_contracts(repo), "mashumaro.core.meta.helpers::get_type_annotations / is_class_var / is_init_var")
+    from ..core.report import Only as _OnlyX
+    from ..core import corpus as _corpusX
+    from . import c09 as _c09x
+    _c09x.r09_1(repo, _OnlyX(rep, {"R09.1"}))
 
 def _r07_4(repo: Repo, rep: Report, tier: str) -> None:
     fi = repo.func(M_BUILDER, "CodeBuilder._add_unpack_method_lines")
@@ -380,3 +384,6 @@ LEVEL_TEXT += _ADD14
 _ADD18 = ' Borrowed: R09.7.'
 EXPLANATION += _ADD18
 LEVEL_TEXT += _ADD18
+_ADD22 = ' Borrowed: R09.1 (alias source precedence).'
+EXPLANATION += _ADD22
+LEVEL_TEXT += _ADD22
